@@ -518,6 +518,9 @@ func TestC06(t *testing.T) {
 			r.Count("probe_consistencyproof_old_size_0_ok", 1)
 		}
 	}()
+	if r.Violations() > 0 {
+		return // vacuity guards are meaningless on a run that already failed
+	}
 	r.Require("roots_equal", N)
 	r.Require("predicted_equal", N)
 	r.Require("inclusion_accepted", N*(N+1)/2)
